@@ -258,3 +258,23 @@ def run_parallel_add(items, callback, n_workers, cms_args=None, hh_args=None, hl
 def current_worker(sched):
     t = sched.me()
     return t.proc.worker_id if t.proc is not None else None
+
+
+def run_under_scheduler(fn, sched_seed=None):
+    """Run fn(log_queue) with helpers.get_context / helpers.sleep replaced (used for direct calls of
+    helpers.parallel_merging)."""
+    helpers = impl.helpers
+    sched = Sched(None, sched_seed=sched_seed)
+    ctx = FakeContext(sched)
+    old_ctx, old_sleep = helpers.get_context, helpers.sleep
+    helpers.get_context = lambda _method=None: ctx
+    helpers.sleep = lambda _s=0: sched.yield_point()
+    try:
+        try:
+            return "returned", fn(FakeQueue(sched)), sched
+        except Hang as exc:
+            return "hang", exc, sched
+        except Exception as exc:
+            return "raised", exc, sched
+    finally:
+        helpers.get_context, helpers.sleep = old_ctx, old_sleep
